@@ -36,6 +36,7 @@ NAMES = [dict(f='col_f', i='Col_i', s='col_S', n='col_n'),
          dict(f='Flux', i='count', s='Name', n='blank'),
          dict(f='Alpha', i='beta2', s='Gamma_3', n='Nu4')]
 DERIVED = 'der'
+UNI = ['caf\u00e9', '\u00c5ngstr\u00f6m', 'na\u00efve x', '\u00b5m']
 
 TABLE_FMTS = ['csv', 'fits-table', 'votable', 'hdf5-table']
 IMAGE_FMTS = ['gridded-fits', 'hdf5-image']
@@ -202,6 +203,11 @@ def all_cases(tier):
         if 's' in c['cols'] and c.get('components') is None and \
                 (tier == 'thorough' or (c.get('nrow', 3) == 3 and not c.get('derived'))):
             be.append(dict(c, jitter=True))
+        # text outside ASCII, for the formats whose encoding can hold it (CSV and VO table are UTF-8) and for HDF5,
+        # whose writer documents the replacement of what ASCII cannot hold
+        if 's' in c['cols'] and c['kind'] == 'table' and c['fmt'] in ('csv', 'votable', 'hdf5-table') and \
+                c.get('components') is None and (tier == 'thorough' or (c.get('nrow', 3) == 3 and not c.get('derived'))):
+            be.append(dict(c, uni=True))
     return cases + be + session_cases(tier, pal)
 
 
@@ -223,6 +229,8 @@ def build(c):
         for j, k in enumerate(c['cols']):
             vals = np.array(pal[k])
             cols.append((names[k], k, np.roll(np.resize(vals, size), -j).reshape(shape)))
+    if c.get('uni'):
+        cols = [(name, k, np.array(UNI[:len(v)]) if k == 's' else v) for name, k, v in cols]
     if c.get('be'):
         cols = [(name, k, v.astype(v.dtype.newbyteorder('>')) if v.dtype.kind in 'fi' else v) for name, k, v in cols]
     if c.get('f32'):
@@ -249,6 +257,8 @@ def build(c):
         comps = [d.id[name] for name, k, v in cols]
     expected = []
     for name, k, v in cols:
+        if c.get('uni') and k == 's' and c['fmt'] == 'hdf5-table':
+            v = np.array([x.encode('ascii', 'replace').decode('ascii') for x in v.tolist()])
         if c['fmt'] == 'gridded-fits':
             name = name.upper()      # FITS extension names are case-insensitive; astropy stores upper case
         if c['kind'] == 'table':
